@@ -87,17 +87,7 @@ export function makeCases(ctx, n, genOpts = {}, fixedSeeds = null) {
   return cases
 }
 
-/** Finding recorded by its witness only: template lookups go through Object.prototype. */
-function runFindingWitnesses(ctx) {
-  const { ge, report } = ctx
-  const res = compileMany([{ id: 0, files: [['p', '<template is="{{n}}"/><v/>']], scripts: [] }]).get(0)
-  const r = instantiate(ge, res.groups, 'p', { n: 'toString' }, {})
-  if (r.error) report.knownHit('template-lookup-through-object-prototype', '`<template is="{{n}}"/>` with n = "toString" / "constructor" / "__proto__" throws instead of rendering nothing (the template tables are plain objects); `<template name="__proto__">` can never be rendered')
-  else report.notes.push('STALE-FINDING template-lookup-through-object-prototype: the recorded witness no longer reproduces')
-}
-
 export async function run(ctx) {
-  if (ctx.shard === 0) runFindingWitnesses(ctx)
   const { report, tier } = ctx
   const N = tier === 'thorough' ? 9000 : 900
   const cases = makeCases(ctx, N)
